@@ -198,6 +198,10 @@ def step (st : St) (line : String) : St × String :=
         match k.toNat? with
         | some k => run1 st n e (.sinkRoom (some k))
         | none => (st, "bad-op")
+      | "deliver", "closemany" :: hs =>
+        match hs.mapM (fun h => parseIn ["bin", h]) with
+        | some ws => run3 st n (applyDeliverMany e ([.msg .close] ++ ws ++ [.eof]))
+        | none => (st, "bad-op")
       | "deliver", ["closeerr"] => run3 st n (applyDeliverMany e [.msg .close, .err])
       | "deliver", ["err2"] => run3 st n (applyDeliverMany e [.err, .err])
       | "deliver", w =>
